@@ -1,7 +1,13 @@
 use crate::decoder;
 
 pub(super) fn graytobin(message: &[u32]) -> (u32, u32) {
-    if let Some(code) = decoder::ma_code(message) {
+    // DF17 carries its altitude code in the ME field (bits 41-52), every other format in AC13 (bits 20-32);
+    // both helpers return the same 14-bit layout
+    let code = match decoder::get_downlink_format(message) {
+        Some(17) => decoder::me_code(message),
+        _ => decoder::ma_code(message),
+    };
+    if let Some(code) = code {
         let n = (extract_bit(&code, 4) << 10)
             | (extract_bit(&code, 2) << 9)
             | (extract_bit(&code, 12) << 8)
